@@ -23,7 +23,9 @@ RULE = ("programs = (a) corpus: real LiteX blocks at several parameterisations (
         "cores, CSR banks, event managers, timers, UART/SPI, 8b/10b, ECC, CDC blocks with two clocks), (b) grammar-generated FHDL "
         "fragments (operators, signedness mixes, widths 1..12 and 33..70, slices incl. full-width, Cat/Replicate, Mux, Array, "
         "If/Elif/Else, Case +-default, slice targets, 1-2 clock domains, reset_less, memories with every port mode/granularity/init/"
-        "async/re; regular_comb on/off). Each is converted and both executions are compared signal by signal, word by word, every "
+        "async/re; regular_comb on/off), (c) generated fragments containing 1-3 Instances of a harness cell (Constant, string, "
+        "preformatted and float parameters; expressions on the input ports; outputs read by the rest of the design): the emitted text "
+        "is executed with the cell's function behind the instance, the simulated twin contains the same function in FHDL. Each is converted and both executions are compared signal by signal, word by word, every "
         "tick under random input vectors (biased to 0, all-ones, sign boundaries, held values; reset pulses); comb-only narrow "
         "fragments exhaustively. Generator classes: width-closed (any mismatch is a violation) and width-hostile (arithmetic under "
         "width-sensitive operators: mismatches are classified). distinct = distinct program digests; non-trivial = >= 3 signals "
@@ -31,11 +33,11 @@ RULE = ("programs = (a) corpus: real LiteX blocks at several parameterisations (
 ASSUMPTIONS = ["Verilog is executed by lib/vsim (own interpreter of the emitted subset; self-test of 63 vectors derived from IEEE 1364-2005 "
                "5.1/5.4/5.5 runs first and makes the check inconclusive if it fails)",
                "combinational blocks are evaluated at time 0 (synthesis behaviour)", "uninitialised memory words read as 0; stimuli never "
-               "address beyond a memory's depth", "vendor Instances are not executed", "two-state values"]
+               "address beyond a memory's depth", "Instances of vendor primitives are not executed (only instances of the harness cell are)", "two-state values"]
 FLOORS = {"quick": {"programs": 500, "ticks_compared": 35000, "signal_values_compared": 900000, "corpus_programs": 60,
-                    "generated_programs": 400, "memory_words_compared": 100000},
+                    "generated_programs": 400, "memory_words_compared": 100000, "instances_executed": 150},
           "thorough": {"programs": 25000, "ticks_compared": 1200000, "signal_values_compared": 25000000, "corpus_programs": 600,
-                       "generated_programs": 24000, "memory_words_compared": 5000000}}
+                       "generated_programs": 24000, "memory_words_compared": 5000000, "instances_executed": 8000}}
 SHARD_TIMEOUT = {"quick": 900, "thorough": 3300}
 N_SAMPLES = 3
 
@@ -51,6 +53,11 @@ def plan(tier, seed):
     for k in range(n):
         cls = ["closed-unsigned", "closed-mixed", "closed-unsigned", "hostile"][k % 4]
         cases.append({"kind": "gen", "cls": cls, "wide": k % 11 == 0, "seed": "%d/C01/gen/%s/%d" % (seed, cls, k), "ticks": 60})
+    # designs with Instances of a harness cell (parameters of every kind, expressions on the input ports): the emitted text is
+    # executed with the cell's function behind the instance, the simulated twin has the same function in FHDL in its place
+    for k in range(120 if tier == "quick" else 6000):
+        cls = ["closed-unsigned", "closed-mixed"][k % 2]
+        cases.append({"kind": "gen", "cls": cls, "wide": False, "insts": 1 + k % 3, "seed": "%d/C01/inst/%s/%d" % (seed, cls, k), "ticks": 40})
     ns = 64 if tier == "quick" else 192
     return [{"id": "tv%03d" % i, "cls": "tv", "cases": cases[i::ns]} for i in range(ns)]
 
@@ -81,8 +88,10 @@ def input_vectors(rng, inputs, nticks, rst=None):
     return vecs
 
 
-def compare_design(build, rng, nticks, two_clock_sched=None, regular_comb=True, exhaustive_bits=None):
-    """build() -> (top, extra) deterministic. Returns result dict."""
+def compare_design(build, rng, nticks, two_clock_sched=None, regular_comb=True, exhaustive_bits=None, build_sim=None, cells=None):
+    """build() -> (top, extra) deterministic. Returns result dict.
+    build_sim: builder of the simulated twin when it differs from the converted design (instances replaced by FHDL logic); its signals
+    are the converted design's, in the same creation order, followed by extra ones."""
     # ---- instance A: convert
     topA, extraA = build()
     fA = topA.get_fragment()
@@ -98,17 +107,22 @@ def compare_design(build, rng, nticks, two_clock_sched=None, regular_comb=True, 
     text = out.main_source
     nameA = {i: out.ns.get_name(s) for i, s in enumerate(sigsA)}
     mem_names = [out.ns.get_name(m_) for m_ in memsA]
-    vs = VerilogSim(text, dict(out.data_files))
+    vs = VerilogSim(text, dict(out.data_files), cells=cells)
     # undriven inputs start at the value the FHDL simulator gives them (their reset value) until the bench drives them
     for s_ in inputsA:
         vs.val[out.ns.get_name(s_)] = s_.reset.value & ((1 << len(s_)) - 1)
     vs.settle()
-    ninst = len(vs.m["instances"])
+    ninst = len([i_ for i_ in vs.m["instances"] if not (i_.get("structured") and i_["cell"] in (cells or {}))])
+    nexec = len(vs.m["instances"]) - ninst
     # ---- instance B: simulate
-    topB, extraB = build()
+    topB, extraB = (build_sim or build)()
     fB = topB.get_fragment()
     sigsB = sorted(list_signals(fB) | list_special_ios(fB, True, True, True), key=lambda s: s.duid)
     memsB = sorted([s for s in fB.specials if isinstance(s, Memory)], key=lambda s: s.duid)
+    if build_sim is not None:
+        if [(len(x), x.signed) for x in sigsB[:len(sigsA)]] != [(len(x), x.signed) for x in sigsA]:
+            raise RuntimeError("the simulated twin's signals are not the converted design's plus trailing ones")
+        sigsB = sigsB[:len(sigsA)]
     if len(sigsA) != len(sigsB) or len(memsA) != len(memsB):
         raise RuntimeError("two builds of the same design differ (%d/%d signals)" % (len(sigsA), len(sigsB)))
     clkB = {cd.name: cd.clk for cd in fB.clock_domains}
@@ -227,7 +241,7 @@ def compare_design(build, rng, nticks, two_clock_sched=None, regular_comb=True, 
         elif classify.width_sensitive_arith(cone):
             cls_ = "intermediate-overflow(arith-under-width-sensitive-operator)"
     return {"classified": cls_, "nmism": len(mism), "mism": mism[:3], "ticks": stats["ticks"], "vals": stats["vals"], "memw": stats["memw"], "changed": len(stats["changed"]),
-            "nsig": len(cmp_idx), "nmem": len(memsA), "instances": ninst, "lines": text.count("\n"), "text_tail": None,
+            "nsig": len(cmp_idx), "nmem": len(memsA), "instances": ninst, "instances_executed": nexec, "lines": text.count("\n"), "text_tail": None,
             "domains": domains}
 
 
@@ -241,16 +255,24 @@ def run_case(case):
         r["hostile_targets"] = []
         return r
     g = fhdlgen.Gen(rng, cls=case["cls"], wide=case.get("wide", False))
+    g.n_insts = case.get("insts", 0)
     spec = case.get("spec") or g.design()
 
     def b():
         top, sigs, mems, ports = fhdlgen.build(spec)
         return top, None
+
+    def b_sim():
+        top, sigs, mems, ports = fhdlgen.build(spec, inline_instances=True)
+        return top, None
+    has_inst = bool(spec.get("insts"))
     nin_bits = sum(d["w"] for d in spec["sigs"] if d["kind"] == "in")
     comb_only = not spec["sync"] and not spec["mems"]
     # the stimulus generator is independent of the design generator: a replay (spec given) sees the same vectors
     r = compare_design(b, rng_for(case["seed"], "stimulus"), case["ticks"], regular_comb=spec["regular_comb"],
-                       exhaustive_bits=nin_bits if (comb_only and nin_bits <= 10) else None)
+                       exhaustive_bits=nin_bits if (comb_only and nin_bits <= 10) else None,
+                       build_sim=b_sim if has_inst else None,
+                       cells={fhdlgen.CELL: (fhdlgen.CELL_IN, fhdlgen.CELL_OUT, fhdlgen.cell_model)} if has_inst else None)
     r["program"] = h(spec)
     r["spec"] = spec
     r["hostile_targets"] = ["%s%d" % ({"in": "i", "comb": "c", "sync": "r"}[spec["sigs"][i]["kind"]], i) for i in spec["hostile_targets"]]
@@ -288,6 +310,7 @@ def _run_shard(shard):
         col.ev("memory_words_compared", r["memw"])
         col.ev("verilog_lines_executed", r["lines"])
         col.ev("instances_not_executed", r["instances"])
+        col.ev("instances_executed", r.get("instances_executed", 0))
         if len(r["domains"]) > 1:
             col.ev("multi_clock_programs")
         col.count("disagreements", len(r["mism"]) and 1)
@@ -297,7 +320,7 @@ def _run_shard(shard):
             if case["kind"] == "corpus":
                 key = "corpus/%s" % what if r["classified"] else "corpus/%s/%s" % (case["name"].split(":")[0], what)
             else:
-                key = "generated-%s/%s" % (case["cls"], what)
+                key = "generated-%s/%s" % (case["cls"] + ("+instances" if case.get("insts") and not r["classified"] else ""), what)
             wit = {"mismatches": r["mism"], "signals_disagreeing_in_that_tick": r["nmism"]}
             if case["kind"] == "gen":
                 wit["spec"] = r["spec"]
